@@ -738,7 +738,9 @@ func TestVerifC13(t *testing.T) {
 	reported := map[string]bool{}
 	violate := func(class, key string, detail any) {
 		if id := class + "|" + key; !reported[id] {
-			reported[id] = true
+			if len(reported) < 200000 { // bound the memory of the de-duplication
+				reported[id] = true
+			}
 			rep.Violate(class, key, detail)
 		} else {
 			rep.Count("violations_repeated", 1)
@@ -880,7 +882,7 @@ func TestVerifC13(t *testing.T) {
 		checkBatch(r, ms)
 	}
 	// 2. PRNG scalars with neighbours, in batches
-	n := vk.N(120000, 12000000)
+	n := vk.N(120000, 8000000)
 	const batch = 1500
 	for done, bi := 0, 0; done < n; bi++ {
 		r := vk.RandFor(1302, bi)
@@ -915,7 +917,7 @@ func TestVerifC13(t *testing.T) {
 		checkBatch(r, ms)
 	}
 	// 3. nested objects and records
-	no := vk.N(6000, 600000)
+	no := vk.N(6000, 400000)
 	for i := 0; i < no; i++ {
 		r := vk.RandFor(1303, i)
 		m := genObj(r, 1+r.IntN(4), true)
